@@ -932,8 +932,6 @@ class DBusObjectHandler :
         @returns: A Deferred to the L{RemoteDBusObject} instance
         """
 
-        weak_id = (busName, objectPath, interfaces)
-
         need_introspection = False
         required_interfaces = set()
 
@@ -956,9 +954,11 @@ class DBusObjectHandler :
                         need_introspection = True
 
             if not need_introspection:
-                return defer.succeed(
-                    RemoteDBusObject(self, busName, objectPath, ifl)
-                )
+                prox = RemoteDBusObject(self, busName, objectPath, ifl)
+
+                self._weakProxies[id(prox)] = prox
+
+                return defer.succeed(prox)
 
         d = self.conn.introspectRemoteObject(
             busName,
@@ -977,7 +977,7 @@ class DBusObjectHandler :
 
             prox = RemoteDBusObject(self, busName, objectPath, ifaces)
 
-            self._weakProxies[weak_id] = prox
+            self._weakProxies[id(prox)] = prox
 
             return prox
 
